@@ -5,10 +5,13 @@ import (
 	"encoding/json"
 	"net"
 	"sort"
+	"strconv"
 	"strings"
 
 	"github.com/yandex/pandora/examples/grpc/server"
 	"google.golang.org/grpc"
+	"google.golang.org/grpc/codes"
+	"google.golang.org/grpc/status"
 	"google.golang.org/grpc/metadata"
 	"google.golang.org/grpc/reflection"
 	"google.golang.org/protobuf/encoding/protojson"
@@ -20,6 +23,10 @@ import (
 // request message (proto3 JSON with the .proto field names; default-valued fields are absent)
 // and the incoming metadata minus the entries grpc itself adds.
 type Target struct {
+	// FailShare: a share of Auth / Order calls (decided by the token in the request) is answered so that
+	// an assert/response postprocessor fails: token%5 == 0 -> status error; token%5 == 1 -> OK without
+	// the asserted payload content.
+	FailShare bool
 	server.UnimplementedTargetServiceServer
 	rec  *Rec
 	srv  *grpc.Server
@@ -112,7 +119,25 @@ func (t *Target) Hello(ctx context.Context, r *server.HelloRequest) (*server.Hel
 	return &server.HelloResponse{Hello: "Hello " + r.GetName() + "!"}, nil
 }
 
+func (t *Target) failKind(v string) int {
+	if !t.FailShare {
+		return -1
+	}
+	_, tok := SplitTok(v)
+	n, err := strconv.Atoi(tok)
+	if err != nil {
+		return -1
+	}
+	return n % 5
+}
+
 func (t *Target) Auth(ctx context.Context, r *server.AuthRequest) (*server.AuthResponse, error) {
+	switch t.failKind(r.GetLogin()) {
+	case 0:
+		return nil, status.Error(codes.InvalidArgument, "invalid credentials")
+	case 1:
+		return &server.AuthResponse{UserId: 7}, nil // no token in the payload
+	}
 	return &server.AuthResponse{UserId: 7, Token: "tok-" + r.GetLogin()}, nil
 }
 
@@ -121,6 +146,9 @@ func (t *Target) List(ctx context.Context, r *server.ListRequest) (*server.ListR
 }
 
 func (t *Target) Order(ctx context.Context, r *server.OrderRequest) (*server.OrderResponse, error) {
+	if t.failKind(r.GetToken()) == 2 {
+		return nil, status.Error(codes.NotFound, "no such item")
+	}
 	return &server.OrderResponse{OrderId: r.GetItemId() + 1}, nil
 }
 
